@@ -23,6 +23,7 @@ META = {
                   "the real engine is run with the callback returning false at its k-th invocation for every k up to the clean run's count.",
     "level_note": "SLG: tested only (every interruption index on generated programs); engine theorems exclude mixed cycles (class F27)",
     "design_ref": "DESIGN.md §4 C11",
+    "bins": ["engine", "hist"],
     "assumptions": [
         "engine theorems are about the propositional instantiation of SolverStuff (ground and-or graphs)",
         "SLG interruption (QuantumExceeded -> Ambig) is covered by differential sweeps, not by a model",
